@@ -2,6 +2,7 @@
 package good
 
 import (
+	"errors"
 	"fmt"
 	"reflect"
 	"strings"
@@ -144,4 +145,15 @@ func TidyAll(ns []node) error {
 		}
 	}
 	return nil
+}
+
+// ErrUndefined stands for "no value".
+var ErrUndefined = errors.New("undefined")
+
+// Swallow treats only the sentinel itself as "no value".
+func Swallow(err error) error {
+	if err == ErrUndefined {
+		return nil
+	}
+	return err
 }
